@@ -33,6 +33,10 @@ T2Aligns == {None, 8, 16}
 T3Sizes == {None, 0, 4, 6, 8, 12}
 T3Aligns == {None, 1, 2, 4, 8, 16}
 T3Palette == {"u8", "u16", "u32", "cptr", "N"}
+(* base sub-objects (with and without a vftable of their own) and a vftable block that is *)
+(* not the first statement                                                                *)
+Q4Addrs == {None, 0, 8}
+Q4Palette == {"u8", "u32", "cptr", "bN", "bV"}
 
 (* helper definitions, by name *)
 HelperN == [TypeDef("N", "pub", <<Field("a", "pub", <<>>, TNm("u16"), None, FALSE),
@@ -46,6 +50,9 @@ HelperS == [TypeDef("S", "pub", <<Field("a", "pub", <<>>, TNm("u64"), None, FALS
               EXCEPT !.size = 12, !.align = 8]
 HelperE == EnumDef("E", "pub", TNm("u16"), <<Variant("A", NumNone, FALSE), Variant("B", NumNone, FALSE)>>)
 HelperX == ExtType("X", 8, 4)
+HelperV == [TypeDef("V", "pub", <<Field("k", "pub", <<>>, TNm("u32"), None, FALSE)>>)
+              EXCEPT !.vft = Vft(None, <<Func("vf", "pub", <<>>, <<ArgM>>, TNone, None, None, "")>>)]
+IsBaseChoice(c) == c \in {"bN", "bV"}
 
 PaletteTypes ==
   [u8 |-> TNm("u8"), u16 |-> TNm("u16"), u32 |-> TNm("u32"), u64 |-> TNm("u64"),
@@ -56,7 +63,7 @@ PaletteTypes ==
    arr8x3 |-> TArr(TNm("u8"), 3), arr16x2 |-> TArr(TNm("u16"), 2), arr32x0 |-> TArr(TNm("u32"), 0),
    unk2 |-> TUnk(2), unk0 |-> TUnk(0),
    N |-> TNm("N"), arrNx2 |-> TArr(TNm("N"), 2), Z |-> TNm("Z"), E |-> TNm("E"), X |-> TNm("X"),
-   pN |-> TCPtr(TNm("N")), S |-> TNm("S")]
+   pN |-> TCPtr(TNm("N")), S |-> TNm("S"), bN |-> TNm("N"), bV |-> TNm("V")]
 
 RECURSIVE Mentions(_, _)
 Mentions(ty, n) ==
@@ -70,28 +77,34 @@ FieldChoices == [ty : Palette, addr : Addrs, name : Names]
 
 FieldSeqs == UNION {[1..n -> FieldChoices] : n \in 0..MaxFields}
 
+(* the late vftable block comes with the base-bearing palette *)
+VftPositions == IF "bN" \in Palette THEN {0, 1} ELSE {0}
+
 VftOne == Vft(None, <<Func("vf", "pub", <<>>, <<ArgM>>, TNone, None, None, "")>>)
 
-MkInput(ptr, fs, size, align, packed, vft) ==
+MkInput(ptr, fs, size, align, packed, vft, vpos) ==
   LET fields == [i \in DOMAIN fs |->
                    Field(IF fs[i].name = "_" THEN "_" ELSE FieldNames[i], "pub", <<>>,
-                         PaletteTypes[fs[i].ty], fs[i].addr, FALSE)]
+                         PaletteTypes[fs[i].ty], fs[i].addr, IsBaseChoice(fs[i].ty))]
       uses(n) == \E i \in DOMAIN fields : Mentions(fields[i].ty, n)
       helpers == (IF uses("N") THEN <<HelperN>> ELSE <<>>)
                  \o (IF uses("Z") THEN <<HelperZ>> ELSE <<>>)
                  \o (IF uses("E") THEN <<HelperE>> ELSE <<>>)
                  \o (IF uses("S") THEN <<HelperS>> ELSE <<>>)
+                 \o (IF uses("V") THEN <<HelperV>> ELSE <<>>)
       T == [TypeDef("T", "pub", fields) EXCEPT !.size = size, !.align = align,
                                                !.packed = packed,
-                                               !.vft = IF vft THEN VftOne ELSE NoVft]
+                                               !.vft = IF vft THEN [VftOne EXCEPT !.pos = vpos] ELSE NoVft]
       m == [Module(<<"m">>, <<>>, helpers \o <<T>>)
               EXCEPT !.exts = IF uses("X") THEN <<HelperX>> ELSE <<>>]
   IN [ptr |-> ptr, mods |-> <<m>>]
 
 MCInit ==
   /\ \E ptr \in Ptrs, fs \in FieldSeqs, size \in Sizes, align \in Aligns,
-        packed \in WithPacked, vft \in WithVft :
-        input = MkInput(ptr, fs, size, align, packed, vft)
+        packed \in WithPacked, vft \in WithVft, vpos \in VftPositions :
+        /\ (vpos > 0 => (vft /\ Len(fs) >= vpos))
+        /\ (\A i \in DOMAIN fs : fs[i].name = "_" => ~IsBaseChoice(fs[i].ty))
+        /\ input = MkInput(ptr, fs, size, align, packed, vft, vpos)
   /\ InitRest
 
 MCSpec == MCInit /\ [][Next]_vars /\ WF_vars(Next)
@@ -105,7 +118,7 @@ TPath == <<"m", "T">>
 (* C03 is stated for descriptions over scalars, pointers, arrays and gaps  *)
 PlainInput ==
   \A i \in DOMAIN input.mods[1].defs[TIdx].fields :
-     ~(\E n \in {"N", "Z", "E", "X", "S"} : Mentions(input.mods[1].defs[TIdx].fields[i].ty, n))
+     ~(\E n \in {"N", "Z", "E", "X", "S", "V"} : Mentions(input.mods[1].defs[TIdx].fields[i].ty, n))
 
 (* known finding classes (section 4 of DESIGN.md); each is FALSE once the  *)
 (* corresponding repair is in                                              *)
